@@ -5,6 +5,7 @@ small-integer values for which it holds with sa.intexpr, and compares that set w
 prescribes.  Re-spelling a guard (`< 128`, `<= 0x7f`, `& 0x80 == 0`) does not change the set; moving a boundary does.
 """
 import ast
+import re
 import copy
 
 from sa.model import AnalysisError, norm, walk_own, ancestors
@@ -244,25 +245,98 @@ def rule_decode_header(ctx):
         and not kinds.get('other')
     ctx.ob('W.dec', f, 'length octet: 0..127 short, 128 indefinite, 129..255 long', ok,
            dict((k, _fmt(v)) for k, v in kinds.items()), node=ln[0])
-    acc8 = [norm(n) for n in ast.walk(ln[0]) if isinstance(n, ast.AugAssign)]
-    ok = 'length <<= 8' in acc8 and 'length |= oct2int(lengthOctet)' in acc8
-    ctx.ob('W.dec', f, 'long form length is base-256, most significant first (leading zero octets allowed)', ok, str(acc8))
-    # no raise depends on the value of a length octet except the short read and the indefinite-unsupported one
-    for r in [n for n in ast.walk(ln[0]) if isinstance(n, ast.Raise)]:
-        g = [a for a in ancestors(r, ln[0]) if isinstance(a, ast.If)]
-        ok = bool(g) and norm(g[0].test) == 'len(encodedLength) != size'
-        ctx.ob('W.dec', f, 'raise inside the length decoding', ok, 'only a short read may raise here; found guard `%s`' % (norm(g[0].test) if g else '?'), node=r)
-    ind = _find_if(f, lambda n: 'supportIndefLength' in norm(n.test) and raises_in(n.body))
-    ok = len(ind) == 1 and norm(ind[0].test) == 'length == -1 and (not self.supportIndefLength)'
-    ctx.ob('W.dec', f, 'indefinite length refused exactly when the codec switches it off', ok, norm(ind[0].test) if ind else 'not found',
-           node=ind[0] if ind else None)
-    # the refusal precedes value decoding
-    if ind:
-        cfg = ctx.cfg(f)
-        t = cfg.node_of[ind[0]]
-        calls = [n for n in cfg.stmt_nodes() if n.kind == 'for' and 'concreteDecoder.' in norm(n.ast.iter)]
-        ok = bool(calls) and all(not _reach_avoiding(cfg, cfg.node_of[ln[0]], c, t) for c in calls)
-        ctx.ob('W.dec', f, 'the refusal lies on every path from the length octets to value decoding', ok, '')
+    # no raise depends on the VALUE of a length octet: only a short read and "indefinite form not supported" may raise here
+    cfg = ctx.cfg(f)
+    sec_raises = [n for n in ast.walk(ln[0]) if isinstance(n, ast.Raise)]
+    extra = _find_if(f, lambda n: 'supportIndefLength' in norm(n.test) and raises_in(n.body))
+    for g in extra:
+        for r in g.body:
+            if isinstance(r, ast.Raise) and r not in sec_raises:
+                sec_raises.append(r)
+    indef_raises = []
+    for r in sec_raises:
+        guards = [a for a in ancestors(r, f.node) if isinstance(a, ast.If) and (any(a is x for x in ast.walk(ln[0])) or a in extra)]
+        own = guards[0] if guards else None
+        cj = [norm(c) for c in (own.test.values if own is not None and isinstance(own.test, ast.BoolOp) and isinstance(own.test.op, ast.And)
+                                else ([own.test] if own is not None else []))]
+        if any('supportIndefLength' in c for c in cj):
+            indef_raises.append((r, own, cj))
+            continue
+        ok = own is not None and len(cj) == 1 and re.fullmatch(r'len\((\w+)\) != size', cj[0]) is not None
+        if ok:
+            rv = re.fullmatch(r'len\((\w+)\) != size', cj[0]).group(1)
+            for st in ast.walk(ln[0]):
+                if isinstance(st, ast.Assign) and norm(st.targets[0]) == rv and st.lineno < own.lineno:
+                    keep = isinstance(st.value, ast.Call) and isinstance(st.value.func, ast.Name) and \
+                        st.value.func.id in ('list', 'bytes', 'bytearray', 'tuple', 'octs2ints') and norm(st.value.args[0]) == rv
+                    ctx.ob('W.dec', f, 'the length octets are counted as read', keep,
+                           '`%s` changes the octets before `%s` compares their number with the announced one: a long form with '
+                           'leading zero octets is reported as a short read' % (norm(st), cj[0]) if not keep else norm(st), node=st)
+        ctx.ob('W.dec', f, 'raise inside the length decoding', ok,
+               'only a short read may raise here; found guard `%s`: a well-formed length (e.g. a long form with leading zero '
+               'octets, or one of more than N octets) is refused' % (norm(own.test) if own is not None else '?'), node=r)
+    # indefinite form refused exactly when the codec switches it off: the refusal is reached for first octet 128 only,
+    # under `not self.supportIndefLength` and nothing else
+    if len(indef_raises) != 1:
+        ctx.ob('W.dec', f, 'indefinite length refused exactly when the codec switches it off', False,
+               '%d refusal sites for the indefinite form' % len(indef_raises))
+    else:
+        r, own, cj = indef_raises[0]
+        others = [c for c in cj if 'supportIndefLength' not in c]
+        flag_ok = [c for c in cj if 'supportIndefLength' in c] == ['not self.supportIndefLength']
+        # first-octet values under which the refusal site is reached
+        reach = None
+        inside = any(own is x for x in ast.walk(ln[0]))
+        if inside:
+            for test, body, acc in sets:
+                if any(own is x for st in body for x in ast.walk(st)):
+                    reach = set(acc)
+            others_ok = not others
+        else:
+            reach = set(kinds.get('indef', set())) if others == ['length == -1'] else None
+            others_ok = others == ['length == -1']
+        ok = flag_ok and others_ok and reach == {128}
+        ctx.ob('W.dec', f, 'indefinite length refused exactly when the codec switches it off', ok,
+               'refusal guarded by `%s`, reached for first length octet in {%s}' % (norm(own.test), _fmt(reach) if reach is not None else '?'),
+               node=own)
+        # the refusal precedes value decoding
+        from sa.rules import genproto as G
+        t = cfg.node_of[own]
+        calls = [n for n in cfg.stmt_nodes() if n.kind == 'for' and isinstance(n.ast.iter, ast.Call) and
+                 any(m.name in ('valueDecoder', 'indefLenValueDecoder') for m in G.callee_set(ctx, f, n.ast.iter))]
+        if not calls:
+            raise AnalysisError('value decoder call sites not found in %s' % f.short)
+        # reaching a value decoder from the indefinite arm without passing the refusal test
+        start = cfg.node_of[ln[0]]
+        ok = all(not _reach_avoiding(cfg, start, c, t) for c in calls) if not inside else True
+        ctx.ob('W.dec', f, 'the refusal lies on every path from the length octets to value decoding', ok,
+               'inside the indefinite arm' if inside else '')
+    # long form accumulation: one loop over the length octets, each round length' = length * 256 + octet
+    loops = [n for n in ast.walk(ln[0]) if isinstance(n, ast.For) and any(
+        isinstance(x, (ast.Assign, ast.AugAssign)) and 'length' in [t.id for t in ast.walk(x) if isinstance(t, ast.Name) and isinstance(t.ctx, ast.Store)]
+        for x in n.body)]
+    if len(loops) != 1 or not isinstance(loops[0].target, ast.Name):
+        raise AnalysisError('length accumulation loop not found')
+    octv = loops[0].target.id
+    bad = None
+    try:
+        for L0 in (0, 1, 2, 255, 256, 65535):
+            for o in (0, 1, 127, 128, 255):
+                env = {'length': L0, octv: o}
+                for st in loops[0].body:
+                    if isinstance(st, ast.Assign) and len(st.targets) == 1 and isinstance(st.targets[0], ast.Name):
+                        env[st.targets[0].id] = intexpr.ev(st.value, env, res)
+                    elif isinstance(st, ast.AugAssign) and isinstance(st.target, ast.Name):
+                        fake = ast.BinOp(left=ast.Name(id=st.target.id, ctx=ast.Load()), op=st.op, right=st.value)
+                        env[st.target.id] = intexpr.ev(fake, env, res)
+                    else:
+                        raise intexpr.NotPure(type(st).__name__)
+                if env['length'] != L0 * 256 + o:
+                    bad = (L0, o, env['length'])
+    except intexpr.NotPure as x:
+        raise AnalysisError('length accumulation `%s` is not pure integer arithmetic: %s' % (norm(loops[0])[:60], x))
+    ctx.ob('W.dec', f, 'long form length is base-256, most significant first (leading zero octets allowed)', bad is None,
+           'one round turns length %d and octet %d into %d' % bad if bad else 'length\' = length * 256 + octet', node=loops[0])
 
 
 def _reach_avoiding(cfg, a, b, avoid):
